@@ -71,6 +71,37 @@ TRb == /\ IsEv("Rb")
        /\ undo'[Trace[l].b] = Trace[l].undo
        /\ Trace[l].idle = TRUE
 
+\* C18: the images recorded for the branch are exactly the rows the statements changed, with their
+\* content just before and just after (u = -3: the column is not part of the image, allowed for the
+\* unwritten part of an UPDATE image when only updated columns are tracked)
+RowMatch(o, sp, kind) ==
+  IF sp = Absent THEN o.w = -1
+  ELSE /\ o.w = sp.w
+       /\ (o.u = sp.u \/ (o.u = -3 /\ kind = "upd" /\ OnlyCare))
+ImgKind(kd) == IF kd = "upsu" THEN "upd" ELSE kd
+ImagesMatch(sp, ob) ==
+  /\ Len(sp) = Len(ob)
+  /\ \A i \in 1..Len(sp) :
+       /\ ob[i].key = sp[i].k
+       /\ ob[i].kind = ImgKind(sp[i].kind)
+       /\ ob[i].stmt = sp[i].s
+       /\ RowMatch(ob[i].before, sp[i].before, sp[i].kind)
+       /\ RowMatch(ob[i].after, sp[i].after, sp[i].kind)
+TImages == /\ IsEv("Images")
+           /\ Trace[l].decoded = TRUE
+           /\ ImagesMatch(imgs[Trace[l].b], Trace[l].imgs)
+           /\ UNCHANGED vars
+
+\* C18: a primary-key update is refused and records nothing
+TRefusedPk == /\ IsEv("RefusedPk")
+              /\ P1Rejected(Trace[l].key)
+              /\ ToDb(Trace[l].db) = db /\ Trace[l].undorows = 0
+
+\* the proxy refused an ordinary statement (reported by C16): it must at least have recorded nothing
+TRefused == /\ IsEv("Refused")
+            /\ ToDb(Trace[l].db) = db /\ Trace[l].undorows = 0
+            /\ UNCHANGED vars
+
 \* unlogged coordinator steps
 TSilent == /\ (StartRollback \/ NextBranch \/ GiveUp)
            /\ UNCHANGED <<l, s0>>
@@ -79,7 +110,7 @@ TSilent == /\ (StartRollback \/ NextBranch \/ GiveUp)
 TEnd   == IsEv("End") /\ UNCHANGED vars
 TAbort == IsEv("Abort") /\ UNCHANGED vars
 
-TraceNext == TP1 \/ TP1Late \/ TForeign \/ TRb \/ TSilent \/ TEnd \/ TAbort
+TraceNext == TP1 \/ TP1Late \/ TForeign \/ TRb \/ TSilent \/ TEnd \/ TAbort \/ TImages \/ TRefusedPk \/ TRefused
 TraceSpec == TraceInit /\ [][TraceNext]_tvars
 
 Invs == [Exact |-> Exact, Honest |-> Honest]
